@@ -696,14 +696,18 @@ fn e2e_burst(r: &mut Rng, res: &mut CaseResult) {
     // thousands of frames readable at once
     let small = r.chance(1, 4);
     let nmsg = if small { r.usize(100, 1500) } else { r.usize(5, 40) };
-    let sizes: Vec<usize> = (0..nmsg).map(|_| if small { *r.pick(&[0usize, 1, 10, 100]) } else { *r.pick(&[0usize, 10, 1000, 4000, 4000, 30000]) }).collect();
+    // the negotiated frame_max varies (4096 is the smallest legal value), and the bigger
+    // bodies come in frames that are exactly as large as it allows
+    let fm: usize = *r.pick(&[4096usize, 4096, 16384, 131072, 131072]);
+    let full = fm - 8;
+    let sizes: Vec<usize> = (0..nmsg).map(|_| if small { *r.pick(&[0usize, 1, 10, 100]) } else { *r.pick(&[0usize, 10, 1000, 4000, 4000, 30000, full, full - 1, 2 * full + 1]) }).collect();
     let total: usize = sizes.iter().sum();
     let mut histories: Vec<Vec<(u64, usize, u64)>> = Vec::new();
     for seg in [Segmenter::Whole, Segmenter::Fixed(1 + r.usize(0, 6)), Segmenter::Fixed(4096), Segmenter::Random(Rng::new(r.next()), 70000)] {
         if matches!(seg, Segmenter::Fixed(n) if n < 8) && total > 200_000 {
             continue;
         }
-        let (conn, h) = session::open_default(Reflex::default());
+        let (conn, h) = session::open_with(Reflex::default(), session::default_opts().frame_max(fm as u32), amiquip::ConnectionTuning::default(), |_| {});
         let mut conn = match conn {
             Ok(c) => c,
             Err(e) => {
@@ -725,10 +729,11 @@ fn e2e_burst(r: &mut Rng, res: &mut CaseResult) {
                 return;
             }
         };
+        res.obs(&format!("e2e_bursts_at_frame_max_{}", fm), 1);
         let mut bytes = Vec::new();
         for (i, sz) in sizes.iter().enumerate() {
             let m = Msg { exchange: "x".into(), routing_key: "k".into(), redelivered: false, delivery_tag: i as u64 + 1, props: Default::default(), body: vec![i as u8; *sz], message_count: 0 };
-            bytes.extend(deliver_frames(ch.channel_id(), cons.consumer_tag(), &m, &even_partition(*sz, 100_000)).concat());
+            bytes.extend(deliver_frames(ch.channel_id(), cons.consumer_tag(), &m, &even_partition(*sz, full)).concat());
         }
         let seg_name = format!("{:?}", seg).chars().take(24).collect::<String>();
         h.with(|st| st.segmenter = seg);
